@@ -600,6 +600,12 @@ func (t *Teamserver) DispatchEvent(pk packager.Package) {
 								ListenerName = val.(string)
 							}
 
+							// listener names are unique across all listener kinds
+							if t.ListenerExist(ListenerName) {
+								logger.Error("Listener already exists: ", ListenerName)
+								return
+							}
+
 							// try to start the listener.
 							if err = listener.Start(pk.Body.Info); err != nil {
 								t.EventListenerError(ListenerName, err)
